@@ -255,6 +255,9 @@ class Key(tuple[BaseKey, ...]):
     return cls(tuple(args))
 
   def __getattr__(self, name: str):
+    # Dunder names are protocol probes (copy, pickle, numpy, ...), not key names.
+    if name.startswith('__') and name.endswith('__'):
+      raise AttributeError(name)
     return Key(self + (name,))
 
   def at(self, key: BaseKey):
